@@ -84,7 +84,7 @@ OBLIGATIONS = [
        desc='cds_lfht_count_nodes: *count equals the number of stored (non-removed, non-bucket) nodes for chains of any length (ghost prefix-count recurrence instantiated on access)'),
 ]
 from obligations import C09 as _c09
-OBLIGATIONS += [o for o in _c09.OBLIGATIONS if o.name in ('C09.O1.count_order', 'C09.O2.resize_terminates', 'C09.O1.target_update')]
+OBLIGATIONS += [o for o in _c09.OBLIGATIONS if o.name in ('C09.O1.count_order', 'C09.O2.resize_terminates', 'C09.O1.target_update', 'C09.O6.destroy')]
 
 LFHT_TRUSTED = ['CBMC 6.11 (legacy and dfcc loop-contract instrumentation, SAT back end)', 'sequential meaning of the uatomic/cmm primitives (atomics_seq.h); sequential CAS asserted not to fail',
                 'pool encoding: canonical layout + forall-elimination of the chain invariant at the node being read (lfht_harness_post.h); layout-obliviousness of the verified functions',
@@ -96,6 +96,10 @@ for e, fns, d in (('h_small_is_empty', ('cds_lfht_is_empty',), 'cds_lfht_is_empt
     OBLIGATIONS.append(Ob(name='C08.O7.small.' + e[8:], harness=SM, entry=e, mode='legacy', replace=('cds_lfht_free_bucket_table', 'cds_lfht_get_count_order_ulong'), defines=D, unwind=7, min_covers=2,
         checks=('--bounds-check', '--signed-overflow-check', '--div-by-zero-check'), tier='B', bound='all 27 chains of <= 3 nodes (bucket / live / removed each) behind bucket 0; loops fully unwound',
         functions=fns, timeout=300, desc=d + ' on every small concrete chain, WITHOUT any rewrite rule or read hook (robust against restructured loops): result equals the reference multimap'))
+OBLIGATIONS.append(Ob(name='C08.O8.new_normalisation', harness='C08/new.c', entry='h_new', mode='legacy', defines=D, unwind=2, min_covers=4, timeout=300,
+    replace=('cds_lfht_get_count_order_ulong', 'cds_lfht_create_bucket', 'alloc_split_items_count', 'cds_lfht_init_worker'), checks=('--bounds-check', '--signed-overflow-check', '--div-by-zero-check'),
+    functions=('_cds_lfht_new_with_alloc', 'get_mm_type'),
+    desc='_cds_lfht_new_with_alloc for all 2^64-valued (init, min, max, flags) and every plug-in choice: NULL iff a size is not a power of two (max = 0 = unlimited only for the order plug-in); else min\' = max(min,1), max\' = max(max,min\'), size = resize_target = min(max(init,1),max\') in [1,max\'], buckets created before the size is set, worker initialised iff AUTO_RESIZE'))
 API = 'C08/api.c'
 CKAPI = ('--bounds-check', '--signed-overflow-check', '--div-by-zero-check')
 for e, fn, lc in (('h_api_add', 'cds_lfht_add', False), ('h_api_add_unique', 'cds_lfht_add_unique', False), ('h_api_add_replace', 'cds_lfht_add_replace', True), ('h_api_del', 'cds_lfht_del', False)):
